@@ -44,14 +44,16 @@
 (*                  "txn"      validate + apply in one step (all ref locks *)
 (*                             held)                                       *)
 (*   LocalCheckObj  the local path refuses a new value absent from store   *)
-(*   LocalAtomicMode "precheck" | "txn"                                    *)
+(*   LocalAtomicMode "none"     get_peeled() knows nothing about a loose   *)
+(*                             ref: the check before applying is void      *)
+(*                  "precheck" | "txn" as above                            *)
 (***************************************************************************)
 EXTENDS Integers, Sequences, FiniteSets, TLC, Json
 
 CONSTANTS Refs,            \* ref names (1..n)
           Pushers,         \* pusher ids (1..m)
           Inits,           \* set of [refs: [Refs -> value], store: set of objects]
-          Pushes,          \* set of functions Pushers -> push descriptor
+          PushIn(_),       \* predicate: the argument is an admissible function Pushers -> push descriptor
           CheckCas, CheckObj, AtomicMode, LocalCheckObj, LocalAtomicMode,
           KeepHist,        \* TRUE: keep the step history (behaviour enumeration)
           Emit             \* TRUE: print every completed behaviour as JSON
@@ -94,7 +96,7 @@ H(rec) == hist' = IF KeepHist THEN Append(hist, rec) ELSE hist
 
 Init ==
     /\ ini \in Inits
-    /\ push \in Pushes
+    /\ PushIn(push)
     /\ refs = ini.refs /\ store = ini.store
     /\ pc = [p \in Pushers |-> IF push[p].kind = "local" THEN "lstart" ELSE "recv"]
     /\ k = [p \in Pushers |-> 1]
@@ -195,7 +197,8 @@ LStart(p) ==
                /\ st' = [st EXCEPT ![p] = All(p, "ok")]
                /\ post' = [post EXCEPT ![p] = cur]
                /\ olds' = [olds EXCEPT ![p] = cur]
-               /\ UNCHANGED <<refs, store, k, unp, exe, pre>>
+               /\ unp' = [unp EXCEPT ![p] = "ok"]
+               /\ UNCHANGED <<refs, store, k, exe, pre>>
           ELSE /\ olds' = [olds EXCEPT ![p] = cur]
                /\ pc' = [pc EXCEPT ![p] = "lpack"]
                /\ UNCHANGED <<refs, store, k, unp, st, exe, pre, post>>
@@ -215,7 +218,7 @@ LPack(p) ==
 \* (a ref that does not exist any more passes)
 LFail(p, i) ==
     LET c == C(p)[i] IN
-      \/ refs[c.r] # 0 /\ refs[c.r] # olds[p][i]
+      \/ LocalAtomicMode = "precheck" /\ refs[c.r] # 0 /\ refs[c.r] # olds[p][i]
       \/ LocalAtomicMode = "txn" /\ (refs[c.r] # olds[p][i] \/ ObjRejL(store, c))
 
 LCheck(p) ==
@@ -275,39 +278,44 @@ Next == (\E p \in Pushers : Step(p)) \/ EmitStep
 Spec == Init /\ [][Next]_vars
 
 \* ---------------------------------------------------------------- the property (C06)
-\* what the client is told: a local push always returns ref_status, a wire push only with
-\* report-status
+\* Each clause is the set of its counterexamples in the current state (empty = holds), so that
+\* the trace monitor can name the offending push and command.
+\* What the client is told: a local push always returns ref_status, a wire push only with
+\* report-status; a push whose connection broke told the client nothing.
 Reported(p) == IsLocal(p) \/ Cap(p, "report-status")
-Settled(p, i) == exe[p][i] \/ pc[p] = "done"
+Told(p) == pc[p] = "done" /\ Reported(p) /\ unp[p] \in {"ok", "fail"}
+Pairs == UNION {{<<p, i>> : i \in Idx(p)} : p \in Pushers}
 Changed(p, i) == exe[p][i] /\ pre[p][i] # post[p][i]
 Applied(p, i) == exe[p][i] /\ pre[p][i] = olds[p][i] /\ post[p][i] = C(p)[i].new
 
-\* success is reported only for a ref that holds the requested value
-OkMeansHolds ==
-    \A p \in Pushers : \A i \in Idx(p) :
-        Reported(p) /\ st[p][i] = "ok" /\ Settled(p, i) => post[p][i] = C(p)[i].new
+\* success is reported only for a ref that holds the requested value (immediately after this
+\* push's operation on it, or, without an operation, when the push ended)
+BadOkMeansHolds ==
+    {w \in Pairs : Told(w[1]) /\ st[w[1]][w[2]] = "ok" /\ post[w[1]][w[2]] # C(w[1])[w[2]].new}
 \* a ref this push changed, or whose compare-and-swap went through, is reported as success
-AppliedMeansOk ==
-    \A p \in Pushers : \A i \in Idx(p) :
-        Reported(p) /\ (Changed(p, i) \/ Applied(p, i)) => st[p][i] = "ok"
+BadAppliedMeansOk ==
+    {w \in Pairs : Told(w[1]) /\ (Changed(w[1], w[2]) \/ Applied(w[1], w[2])) /\ st[w[1]][w[2]] # "ok"}
 \* a ref whose value differs from the old value named is left alone and reported as rejected
 \* (when it happens to hold the requested value already, either report is accepted)
-StaleUntouched ==
-    \A p \in Pushers : \A i \in Idx(p) :
-        exe[p][i] /\ pre[p][i] # olds[p][i] =>
-            /\ post[p][i] = pre[p][i]
-            /\ (Reported(p) /\ pre[p][i] # C(p)[i].new => st[p][i] # "ok")
-StatusExact == OkMeansHolds /\ AppliedMeansOk /\ StaleUntouched
-
+BadStaleUntouched ==
+    {w \in Pairs : LET p == w[1] i == w[2] IN
+        /\ exe[p][i] /\ pre[p][i] # olds[p][i]
+        /\ \/ post[p][i] # pre[p][i]
+           \/ Told(p) /\ pre[p][i] # C(p)[i].new /\ st[p][i] = "ok"}
 \* the server never has a ref naming an object it does not have
-NoDanglingRef == \A r \in Refs : refs[r] # 0 => refs[r] \in store
-
+BadNoDanglingRef == {r \in Refs : refs[r] # 0 /\ refs[r] \notin store}
 \* atomic: all ref updates are applied or none
-AtomicOK ==
-    \A p \in Pushers :
-        pc[p] = "done" /\ IsAtomic(p) =>
-            \/ \A i \in Idx(p) : ~Changed(p, i)
-            \/ \A j \in Idx(p) : post[p][j] = C(p)[j].new
+BadAtomicOK ==
+    {p \in Pushers : /\ pc[p] = "done" /\ IsAtomic(p)
+                     /\ \E i \in Idx(p) : Changed(p, i)
+                     /\ \E j \in Idx(p) : post[p][j] # C(p)[j].new}
+
+OkMeansHolds == BadOkMeansHolds = {}
+AppliedMeansOk == BadAppliedMeansOk = {}
+StaleUntouched == BadStaleUntouched = {}
+StatusExact == OkMeansHolds /\ AppliedMeansOk /\ StaleUntouched
+NoDanglingRef == BadNoDanglingRef = {}
+AtomicOK == BadAtomicOK = {}
 
 TypeOK ==
     /\ \A p \in Pushers : pc[p] \in {"recv", "validate", "update", "lstart", "lpack", "lcheck", "lupdate", "done"}
